@@ -1,8 +1,163 @@
-import Magog.Model.Eval
 import Magog.Model.Time
 
-/-! Property C13 — theorems (see DESIGN §5). -/
+/-! Property C13 — time allotment is safe: taken from the mover's clock, bounded by the remaining time
+    minus the safety margin (and at least 1 ms), monotone in remaining time and increment, antitone in
+    moves-to-go; `movetime T` allots `T − margin`.
+
+The model (`Model.allot`, `Model.goParams`) mirrors `calcEndtime` / `doGo` with Go's truncating division,
+the explicit division-by-zero panic and explicit `int64` wrap-around (`wrap64`); the theorems hold on the
+decidable range `|x| ≤ 2^42` ms (139 years), inside which no operation wraps. The safety margin is the
+regenerated constant `Gen.antiflagMillis`. -/
 
 namespace Magog.Props.C13
+open Magog Magog.Model
+
+/-- values a GUI can send: well inside int64 even after the ×10⁶ conversion to nanoseconds -/
+def InRange (x : Int) : Prop := -4398046511104 ≤ x ∧ x ≤ 4398046511104
+
+theorem wrap64_id {x : Int} (h1 : -9223372036854775808 ≤ x) (h2 : x < 9223372036854775808) : wrap64 x = x := by
+  unfold wrap64; omega
+
+/-- the allotment as plain integer arithmetic -/
+def allotPure (left inc m : Int) : Int :=
+  max ((if left > inc then min (left.tdiv m + inc) left else left) - (Gen.antiflagMillis : Int)) 1
+
+theorem tdiv_bounds {a m : Int} (hm : 0 < m) : (0 ≤ a → 0 ≤ a.tdiv m ∧ a.tdiv m ≤ a) ∧ (a ≤ 0 → a ≤ a.tdiv m ∧ a.tdiv m ≤ 0) := by
+  constructor
+  · intro ha
+    refine ⟨?_, Int.tdiv_le_self m ha⟩
+    rw [Int.tdiv_eq_ediv_of_nonneg ha]; exact Int.ediv_nonneg ha (Int.le_of_lt hm)
+  · intro ha
+    have h1 : (-a).tdiv m ≤ -a := Int.tdiv_le_self m (by omega)
+    have h2 : 0 ≤ (-a).tdiv m := by
+      rw [Int.tdiv_eq_ediv_of_nonneg (by omega)]; exact Int.ediv_nonneg (by omega) (Int.le_of_lt hm)
+    rw [Int.neg_tdiv] at h1 h2
+    omega
+
+/-- In range and with a non-zero divisor the model does not panic and computes `allotPure` of the
+    mover's own clock. -/
+theorem allot_eq (black : Bool) (bl bi wl wi m : Int)
+    (hbl : InRange bl) (hbi : InRange bi) (hwl : InRange wl) (hwi : InRange wi) (hm : 0 < m) :
+    allot black bl bi wl wi m =
+      .ok (allotPure (if black then bl else wl) (if black then bi else wi) m) := by
+  unfold InRange at *
+  have key : ∀ left inc : Int, InRange left → InRange inc →
+      (do
+        let forMove ← if left > inc then do
+                        let q ← goDiv left m
+                        pure (min (wrap64 (q + inc)) left)
+                      else (pure left : M Int)
+        let forMove := wrap64 (forMove - Gen.antiflagMillis)
+        pure (max forMove 1) : M Int) = .ok (allotPure left inc m) := by
+    intro left inc hl hi
+    unfold InRange at hl hi
+    have hb := @tdiv_bounds left m hm
+    have hq : -4398046511104 ≤ left.tdiv m ∧ left.tdiv m ≤ 4398046511104 := by
+      rcases Int.le_total 0 left with h | h
+      · have := hb.1 h; omega
+      · have := hb.2 h; omega
+    have hmne : (m == 0) = false := by simp; omega
+    unfold allotPure goDiv
+    simp only [hmne, Bool.false_eq_true, ↓reduceIte, Gen.antiflagMillis]
+    by_cases hgt : left > inc
+    · simp only [hgt, ↓reduceIte, bind, Except.bind, pure, Except.pure]
+      rw [wrap64_id (x := left.tdiv m) (by omega) (by omega)]
+      rw [wrap64_id (x := left.tdiv m + inc) (by omega) (by omega)]
+      rw [wrap64_id (by omega) (by omega)]
+    · simp only [hgt, ↓reduceIte, bind, Except.bind, pure, Except.pure]
+      rw [wrap64_id (by omega) (by omega)]
+  cases black
+  · simpa [allot] using key wl wi hwl hwi
+  · simpa [allot] using key bl bi hbl hbi
+
+/-- **own clock**: the other side's clock and increment do not occur in the result -/
+theorem allot_own_clock (bl bi wl wi wl' wi' bl' bi' m : Int) :
+    allot true bl bi wl wi m = allot true bl bi wl' wi' m ∧
+    allot false bl bi wl wi m = allot false bl' bi' wl wi m := by
+  constructor <;> simp [allot]
+
+/-- **bounds**: at least 1 ms and never beyond the remaining time minus the safety margin -/
+theorem allot_bounds (left inc m : Int) :
+    1 ≤ allotPure left inc m ∧ allotPure left inc m ≤ max 1 (left - (Gen.antiflagMillis : Int)) := by
+  unfold allotPure
+  by_cases h : left > inc <;> simp only [h, ↓reduceIte] <;> omega
+
+/-- **monotone in the remaining time** -/
+theorem allot_mono_left (l l' inc m : Int) (hm : 0 < m) (h : l ≤ l') :
+    allotPure l inc m ≤ allotPure l' inc m := by
+  have hq : l.tdiv m ≤ l'.tdiv m := Int.tdiv_le_tdiv hm h
+  have hb := @tdiv_bounds l m hm
+  have hb' := @tdiv_bounds l' m hm
+  unfold allotPure
+  simp only [Gen.antiflagMillis]
+  by_cases h1 : l > inc <;> by_cases h2 : l' > inc <;> simp only [h1, h2, ↓reduceIte]
+  · omega
+  · omega
+  · -- l ≤ inc < l'
+    rcases Int.le_total 0 l' with hp | hn
+    · have := hb'.1 hp; omega
+    · have := hb'.2 hn; omega
+  · omega
+
+/-- **monotone in the increment** -/
+theorem allot_mono_inc (l inc inc' m : Int) (hm : 0 < m) (h : inc ≤ inc') :
+    allotPure l inc m ≤ allotPure l inc' m := by
+  have hb := @tdiv_bounds l m hm
+  unfold allotPure
+  simp only [Gen.antiflagMillis]
+  by_cases h1 : l > inc <;> by_cases h2 : l > inc' <;> simp only [h1, h2, ↓reduceIte] <;> omega
+
+theorem tdiv_antitone_divisor {a m m' : Int} (ha : 0 ≤ a) (hm : 0 < m) (h : m ≤ m') : a.tdiv m' ≤ a.tdiv m := by
+  rw [Int.tdiv_eq_ediv_of_nonneg ha, Int.tdiv_eq_ediv_of_nonneg ha]
+  have hm' : 0 < m' := by omega
+  rw [Int.le_ediv_iff_mul_le hm]
+  have h1 : a / m' * m' ≤ a := Int.ediv_mul_le a (by omega)
+  have h2 : 0 ≤ a / m' := Int.ediv_nonneg ha (by omega)
+  have h3 : a / m' * m ≤ a / m' * m' := Int.mul_le_mul_of_nonneg_left h h2
+  omega
+
+/-- **antitone in moves-to-go** (`movestogo ≥ 1`): more moves to go never yields more time -/
+theorem allot_anti_mtg (l inc m m' : Int) (hm : 1 ≤ m) (h : m ≤ m') :
+    allotPure l inc m' ≤ allotPure l inc m := by
+  unfold allotPure
+  simp only [Gen.antiflagMillis]
+  by_cases h1 : l > inc <;> simp only [h1, ↓reduceIte]
+  · rcases Int.le_total 0 l with hp | hn
+    · have := @tdiv_antitone_divisor l m m' hp (by omega) h
+      omega
+    · -- non-positive remaining time: both sides are the minimum 1 ms
+      have a := (@tdiv_bounds l m (by omega)).2 hn
+      have b := (@tdiv_bounds l m' (by omega)).2 hn
+      omega
+  · omega
+
+theorem goScan_movetime (s : Bytes) (rest : List Bytes) (a : GoAcc) (T : Int) (hs : atoi s = some T) :
+    goScan (kwMoveTime :: s :: rest) a = .ok (.done { a with moveTime := T }) := by
+  rw [goScan]
+  simp only [beq_self_eq_true, ↓reduceIte, bind, Except.bind, pure, Except.pure, hs]
+
+/-- **movetime**: `go movetime T` (any numeral `s` with `atoi s = T`, `T ≠ -1`: −1 is the engine's
+    "not given" marker) allots exactly `T − margin` milliseconds, searches to the default maximal depth,
+    and ignores every token after it. -/
+theorem movetime_allot (black : Bool) (s : Bytes) (rest : List Bytes) (T : Int)
+    (hs : atoi s = some T) (hT : InRange T) (hne : T ≠ -1) :
+    goTokens black (kwMoveTime :: s :: rest) =
+      .ok (some ⟨T - (Gen.antiflagMillis : Int), (Gen.MaxSearchDepth : Int)⟩) := by
+  unfold InRange at hT
+  have h1 : (T != -1) = true := by simp [hne]
+  unfold goTokens
+  rw [goScan_movetime s rest {} T hs]
+  simp only [goFinish, bind, Except.bind, pure, Except.pure, ↓reduceIte, h1]
+  simp only [Gen.antiflagMillis]
+  rw [wrap64_id (x := T - ((50 : Nat) : Int)) (by omega) (by omega)]
+  rw [wrap64_id (by omega) (by omega)]
+  rw [Int.mul_tdiv_cancel _ (by decide)]
+
+/-- the hypotheses are satisfiable on a non-trivial clock state, and the values are what the engine prints -/
+example : InRange 60000 ∧ InRange 1000 ∧
+    allot false 0 0 60000 1000 30 = .ok 2950 ∧ allot true 300 10 0 0 40 = .ok 1 ∧
+    goTokens false [kwMoveTime, [49, 48, 48, 48]] = .ok (some ⟨950, 40⟩) := by
+  refine ⟨by unfold InRange; omega, by unfold InRange; omega, by rfl, by rfl, ?_⟩
+  exact movetime_allot false [49, 48, 48, 48] [] 1000 (by rfl) (by unfold InRange; omega) (by omega)
 
 end Magog.Props.C13
